@@ -125,6 +125,12 @@ pub fn gen_text(rng: &mut Rng, corpus: &[Entry]) -> GenText {
 fn replay_obj(text: &str, excludes: &[String]) -> Value {
   json!({ "engine": "devices", "property": "C16", "proc_text": text, "excludes": excludes })
 }
+fn replay_obj_names(names: &[String], excludes: &[String]) -> Value {
+  json!({ "engine": "devices", "property": "C16", "synthetic_names": names, "excludes": excludes })
+}
+fn synth_entries(names: &[String]) -> Vec<Option<(String, String, bool)>> {
+  names.iter().enumerate().map(|(j, n)| Some((format!("/devices/synthetic/input/input{}", j), n.clone(), true))).collect()
+}
 
 // hook-level oracles on one text. Returns the isolated classification: (sysfs, name, is_keyboard) per entry that yields a device
 fn check_hook_level(g: &GenText, out: &mut ShardOut) -> Vec<Option<(String, String, bool)>> {
@@ -226,7 +232,8 @@ fn check_exclusion_hooks(per_entry: &[Option<(String, String, bool)>], excludes:
   if got1 != want || got2 != want {
     out.violation(Violation { property: "C16".to_string(), clause: "exclusion".to_string(), signature: "C16:exclusion-differs-from-glob-on-name".to_string(),
       message: format!("patterns {:?} on names {:?}: --all-keyboards route flags {:?}, --dev-file route flags {:?}, a glob match on the names gives {:?}", excludes,
-        per_entry.iter().flatten().map(|d| d.1.clone()).collect::<Vec<_>>(), got1, got2, want), replay: replay_obj(text, excludes) });
+        per_entry.iter().flatten().map(|d| d.1.clone()).collect::<Vec<_>>(), got1, got2, want),
+      replay: if text.is_empty() { replay_obj_names(&per_entry.iter().flatten().map(|d| d.1.clone()).collect::<Vec<_>>(), excludes) } else { replay_obj(text, excludes) } });
   }
 }
 
@@ -418,8 +425,46 @@ pub fn run(opts: &Opts) -> i32 {
     let g = GenText { entries: corpus.clone(), text: corpus.iter().map(|e| e.text()).collect::<Vec<_>>().join("\n") };
     check_hook_level(&g, &mut out);
   }
-  let n = opts.num("texts", if thorough { 400_000 } else { 40_000 });
-  let e2e_every = opts.num("e2e_every", if thorough { 100 } else { 200 });
+  // names and patterns that coincide with words the implementation uses itself (dictionary mined from its sources)
+  {
+    let dict = crate::dict::all();
+    for (i, t) in dict.iter().enumerate() {
+      if (i as u64) % opts.nshards != opts.shard || t.starts_with('-') { continue; }
+      let other = rng.pick(dict).clone();
+      let sn = vec![t.clone(), format!("ACME {} Keypad", t), other.clone(), "plain".to_string()];
+      out.count("dictionary_tokens");
+      out.nontrivial(hash64(&(t, 16u8)));
+      check_exclusion_hooks(&synth_entries(&sn), &[t.clone()], "", &mut out);
+      check_exclusion_hooks(&synth_entries(&sn), &[format!("*{}*", t)], "", &mut out);
+      if !other.starts_with('-') { check_exclusion_hooks(&synth_entries(&sn), &[other.clone(), t.clone()], "", &mut out); }
+    }
+  }
+  // every ordered pair of small patterns over {a, b, *, ?} (up to 4 characters, thorough: 5) against every name over
+  // {a, b} of up to 5 (6) characters: whatever a list of patterns does beyond "any pattern matches" - merging,
+  // de-duplicating, ordering, short-cutting - shows on some pair here if it shows on small patterns at all
+  {
+    let plen = if thorough { 5 } else { 4 };
+    let nlen = if thorough { 6 } else { 5 };
+    let mut pats: Vec<String> = vec![];
+    let pal = ['a', 'b', '*', '?'];
+    for l in 1..=plen { for i in 0..(4u32.pow(l)) { let mut x = i; let mut p = String::new(); for _ in 0..l { p.push(pal[(x % 4) as usize]); x /= 4; } pats.push(p); } }
+    let mut names: Vec<String> = vec![];
+    for l in 1..=nlen { for i in 0..(2u32.pow(l)) { let mut x = i; let mut p = String::new(); for _ in 0..l { p.push(if x % 2 == 0 { 'a' } else { 'b' }); x /= 2; } names.push(p); } }
+    let synth = synth_entries(&names);
+    let total = (pats.len() * pats.len()) as u64;
+    let stride = if opts.num("aux", 0) == 1 { 997 } else { 1 };
+    let mut i = opts.shard;
+    while i < total {
+      let (p1, p2) = (&pats[(i / pats.len() as u64) as usize], &pats[(i % pats.len() as u64) as usize]);
+      out.count("small_pattern_pairs");
+      check_exclusion_hooks(&synth, &[p1.clone(), p2.clone()], "", &mut out);
+      if out.n_violations() > 20 { break; }
+      i += opts.nshards * stride;
+    }
+    out.nontrivial(hash64(&(opts.shard, 0x5a11u32)));
+  }
+  let n = opts.num("texts", if thorough { 1_000_000 } else { 100_000 });
+  let e2e_every = opts.num("e2e_every", if thorough { 200 } else { 250 });
   for i in 0..n {
     let g = gen_text(&mut rng, &corpus);
     let per_entry = check_hook_level(&g, &mut out);
@@ -431,11 +476,11 @@ pub fn run(opts: &Opts) -> i32 {
     // shows whether every pattern of the list is applied)
     if i % 3 == 0 {
       let pats = related_patterns(&mut rng, &names);
-      let mut synth: Vec<Option<(String, String, bool)>> = vec![];
-      for (j, p) in pats.iter().enumerate() { for k in 0..3 { synth.push(Some((format!("/devices/synthetic/input/input{}", j * 3 + k), instantiate(p, &mut rng), true))); } }
-      for n in names.iter().take(3) { synth.push(Some(("/devices/synthetic/input/inputN".to_string(), n.clone(), true))); }
+      let mut sn: Vec<String> = vec![];
+      for p in pats.iter() { for _ in 0..3 { sn.push(instantiate(p, &mut rng)); } }
+      for n in names.iter().take(3) { sn.push(n.clone()); }
       out.count("related_pattern_lists");
-      check_exclusion_hooks(&synth, &pats, &g.text, &mut out);
+      check_exclusion_hooks(&synth_entries(&sn), &pats, "", &mut out);
     }
     if let Some(ns) = &ns {
       if i % e2e_every == 0 {
@@ -453,8 +498,13 @@ pub fn run(opts: &Opts) -> i32 {
 }
 
 pub fn replay(rep: &Value, out: &mut ShardOut) -> bool {
-  let text = match rep.get("proc_text").and_then(|t| t.as_str()) { Some(t) => t.to_string(), None => return false };
   let excludes: Vec<String> = rep.get("excludes").and_then(|e| e.as_array()).map(|a| a.iter().filter_map(|x| x.as_str().map(|s| s.to_string())).collect()).unwrap_or(vec![]);
+  if let Some(sn) = rep.get("synthetic_names").and_then(|e| e.as_array()) {
+    let names: Vec<String> = sn.iter().filter_map(|x| x.as_str().map(|s| s.to_string())).collect();
+    check_exclusion_hooks(&synth_entries(&names), &excludes, "", out);
+    return true;
+  }
+  let text = match rep.get("proc_text").and_then(|t| t.as_str()) { Some(t) => t.to_string(), None => return false };
   let entries: Vec<Entry> = {
     let mut v: Vec<Entry> = vec![];
     for l in text.lines() {
